@@ -566,10 +566,83 @@ func c12FixedCase(name string) (string, any) {
 		v.Release()
 		_ = e.inLoop(func() {})
 		return msg, hist
+	case "F-C12-unindexed-capture-in-front-of-stream":
+		// a flow in three captures; the middle one is imported (its completion is parked), the first one is queued,
+		// the process is killed. After the restart the stream known from the middle capture starts with the server's
+		// datagram. The import of the third capture replays the first capture, which was never indexed: the stream
+		// now starts with the client's datagram and client and server swap
+		base, err := os.MkdirTemp("", "c12f-")
+		if err != nil {
+			return "setup: " + err.Error(), nil
+		}
+		defer os.RemoveAll(base)
+		d, err := veMakeDirs(filepath.Join(base, "e0"))
+		if err != nil {
+			return "setup: " + err.Error(), nil
+		}
+		tr := &veTraffic{Base: time.Date(2024, 1, 2, 13, 0, 0, 0, time.UTC)}
+		tr.Flows = []veFlow{{"10.0.0.1", "10.0.0.2", 1001, 80}}
+		s := time.Second
+		tr.Packets = []vePacket{{0, 0, 1 * s, "aa"}, {0, 1, 19 * s, "zz"}, {0, 0, 42 * s, "cc"}}
+		tr.Cuts = []int{0, 1, 2, 3}
+		hist := []string{}
+		e, err := veStart(d, false)
+		if err != nil {
+			return "setup: " + err.Error(), nil
+		}
+		imp := func(e *veEngine, d veDirs, c int) error {
+			delete(tr.Written, c)
+			n, err := tr.writeCapture(d, c)
+			if err != nil {
+				return err
+			}
+			hist = append(hist, "import "+n)
+			e.mgr.ImportPcaps([]string{n})
+			return e.sync()
+		}
+		for _, c := range []int{1, 0} {
+			if err := imp(e, d, c); err != nil {
+				e.close()
+				return err.Error(), hist
+			}
+		}
+		d2, _ := veMakeDirs(filepath.Join(base, "e1"))
+		if err := copyTree(d.base, d2.base); err != nil {
+			e.close()
+			return "setup: " + err.Error(), hist
+		}
+		hist = append(hist, "crash (import of c1 parked, c0 queued)")
+		e.close()
+		if e, err = veStart(d2, false); err != nil {
+			return "restart failed: " + err.Error(), hist
+		}
+		defer e.close()
+		if err := e.sync(); err != nil {
+			return err.Error(), hist
+		}
+		hist = append(hist, "AddTag tag/b cport:1001")
+		if err := e.mgr.AddTag("tag/b", "#fff", "cport:1001"); err != nil {
+			return err.Error(), hist
+		}
+		if _, err := e.settle(100, nil); err != nil {
+			return err.Error(), hist
+		}
+		if err := imp(e, d2, 2); err != nil {
+			return err.Error(), hist
+		}
+		if _, err := e.settle(100, nil); err != nil {
+			return err.Error(), hist
+		}
+		hist = append(hist, "settle")
+		msg := ""
+		if err := e.inLoop(func() { msg = e.checkTagsInLoop(nil) }); err != nil {
+			return err.Error(), hist
+		}
+		return msg, hist
 	}
 	return "unknown fixed case", name
 }
 
 func TestVerifC12Fixed(t *testing.T) {
-	vlib.Fixed(t, "C12", []string{"F-C12-duplicate-stream-after-crash-queue"}, c12FixedCase)
+	vlib.Fixed(t, "C12", []string{"F-C12-duplicate-stream-after-crash-queue", "F-C12-unindexed-capture-in-front-of-stream"}, c12FixedCase)
 }
